@@ -412,7 +412,9 @@ def rule_r2(ctx) -> List[R.Inst]:
         # whole-frame form, per-group lambda: F.groupby('column')['offset'].transform(lambda o: o.diff().shift(-1))
         f3 = (lambda m_: m_ if m_ and m_.group(2) == m_.group(3) else None)(
             _re.fullmatch(r"(\w+)\.groupby\('column'\)\['offset'\]\.(?:transform|apply)\(lambda(\w+):(\w+)\.diff\(\)\.shift\(-1\)\)", t_))
-        f1 = f1 or f3
+        # list form: G['offset'].diff().tolist()[1:] + [nan]  — the diffs moved up one place, none for the last row
+        f4 = _re.fullmatch(r"(\w+)\['offset'\]\.diff\(\)\.(?:tolist|to_list)\(\)\[1:\]\+\[(?:np\.nan|numpy\.nan|float\('nan'\)|math\.nan|nan)\]", t_)
+        f1 = f1 or f3 or f4
         ops_ = {x.func.attr for x in ast.walk(v) if isinstance(x, ast.Call) and isinstance(x.func, ast.Attribute)}
         if f1 or f2:
             insts.append(R.ok(rid, "gap-to-next", file, d[0].lineno, idiom="next offset of the same column - own offset (diff().shift(-1) / shift(-1) - offset)"))
